@@ -1680,6 +1680,10 @@ impl HnswBackend {
         let mut embedding = embedding;
         let distance = self.index.read().distance_metric();
         normalize_in_place_if_needed(distance, &mut embedding)?;
+        // Refuse anything the index would reject (non-finite lanes, a norm that overflowed during
+        // normalization) *before* the WAL append. A rejection after the append is compensated by
+        // a Delete entry, which on an overwrite would destroy the previous version on recovery.
+        self.index.read().validate_vector(&embedding)?;
         let embedding_digest = digest_embedding(&embedding);
 
         let mut attempted_compaction = false;
